@@ -73,6 +73,11 @@ def replay(cand):
 def main(tier):
     rep = common.Report("C03", tier, "model_checking")
     cfgs = kernels.config_space(tier, common.seed())
+    if tier == "thorough":
+        # the full space (every type x container x offset x width x order, ~115k configurations) is ~4 h of
+        # solver time for the write direction; a third of it per run, rotated by the seed
+        k = common.seed() % 3
+        cfgs = cfgs[k::3]
     bcd_max = 16 if tier == "quick" else 32
     total = kernel_check.run_all("encode", cfgs, opts={"bcd_write_max": bcd_max})
     for e in total.errors[:5]:
@@ -107,7 +112,7 @@ def main(tier):
         "states": total.configs,
         "transitions": total.queries + wi.get("queries", 0) + sl.get("queries", 0),
         "traces_validated_against_impl": replayed + sl.get("replayed", 0),
-        "exhaustive": tier == "thorough",
+        "exhaustive": False,
         "configurations": total.configs, "functions_encoded": total.functions,
         "ir_instructions_executed": total.instrs, "queries": total.queries, "unsat": total.unsat,
         "reachability_witnesses": total.witnesses,
@@ -115,7 +120,9 @@ def main(tier):
         "not_encoded": total.not_encoded[:20], "not_encoded_count": len(total.not_encoded),
         "solver_s": round(total.solver_s, 1), "compile_s": round(total.compile_s, 1),
         "candidates_classified": seen, "write_inference": wi, "structure_level": sl,
-        "bounds": {"buffer_length": "0..%d bytes" % kernel_check.NMAX, "initial_contents": "all", "value": "every value of the full-width argument type (int64_t and uint64_t overloads for UInt/Int; the enum's own type; the view's ValueType for Bcd)",
+        "bounds": {"configurations": "quick: boundary-biased + seeded sample; thorough: every third configuration of the full space "
+                                     "(type x container 8..64 x offset x width x LE/BE/Null, alignment variants rotated), the third chosen by the seed",
+                   "buffer_length": "0..%d bytes" % kernel_check.NMAX, "initial_contents": "all", "value": "every value of the full-width argument type (int64_t and uint64_t overloads for UInt/Int; the enum's own type; the view's ValueType for Bcd)",
                    "bcd_write_width": "<= %d bits (division-by-10 chains beyond that do not bit-blast in time); CouldWriteValue for all widths" % bcd_max,
                    "outside": "Bcd writes wider than the bound; [requires] on leaf kernels (covered at structure level in C01)"},
         "explanation": "states = configurations; transitions = solver queries, each over all initial buffers, lengths and candidate values",
